@@ -216,6 +216,11 @@ def find(
                     include,
                     os.path.dirname(e["file"]),
                 )
+                if include_file and not file_platform.process_include(
+                    include_file,
+                ):
+                    # Already included and marked #pragma once.
+                    continue
                 if include_file:
                     # Like an #include on the first line of the file: parsed
                     # in the language of the file it is included into.
